@@ -110,6 +110,9 @@ func privateCallSite(fn *ssa.Function) ssa.CallInstruction {
 func resolveOnce(v ssa.Value) (ssa.Value, bool) {
 	switch x := v.(type) {
 	case *ssa.Parameter:
+		if a, ok := paramBind[x]; ok {
+			return a, true
+		}
 		fn := x.Parent()
 		cs := privateCallSite(fn)
 		if cs == nil {
@@ -665,4 +668,51 @@ func RootOf(fn *ssa.Function) *ssa.Function {
 		fn = cs.Parent()
 	}
 	return fn
+}
+
+// paramBind: parameter bindings of the predicate helper whose body is being matched in
+// place of a call to it (see ExpandCond).
+var paramBind = map[*ssa.Parameter]ssa.Value{}
+
+// ExpandCond: when a branch condition is a call to a small predicate helper of the
+// repository (unexported, one return, boolean result — e.g. `isLocalhost(name)` extracted
+// from a repeated test), the condition that matters is the expression the helper returns,
+// with its parameters bound to the arguments of THIS call. It returns that expression and
+// a function that removes the bindings again; (v, no-op) when v is not such a call.
+func ExpandCond(v ssa.Value) (ssa.Value, func()) {
+	noop := func() {}
+	cl, ok := Strip(v).(*ssa.Call)
+	if !ok {
+		return v, noop
+	}
+	cal := cl.Call.StaticCallee()
+	if cal == nil || !helperOK(cal) || cal.Signature.Results().Len() != 1 {
+		return v, noop
+	}
+	if b, ok := cal.Signature.Results().At(0).Type().Underlying().(*types.Basic); !ok || b.Kind() != types.Bool {
+		return v, noop
+	}
+	n := 0
+	Instrs(cal, func(in ssa.Instruction) { n++ })
+	if n > 40 {
+		return v, noop
+	}
+	ret, ok := uniqueResult(cal, 0)
+	if !ok {
+		return v, noop
+	}
+	var bound []*ssa.Parameter
+	for i, p := range cal.Params {
+		if i < len(cl.Call.Args) {
+			if _, dup := paramBind[p]; !dup {
+				paramBind[p] = cl.Call.Args[i]
+				bound = append(bound, p)
+			}
+		}
+	}
+	return ret, func() {
+		for _, p := range bound {
+			delete(paramBind, p)
+		}
+	}
 }
